@@ -22,7 +22,7 @@ def features(sql, dialect):
     f = {"mixed_comma_join_names": set(), "select_subquery_tables": set(), "lateral_view_aliases": set(),
          "rename_old": set(), "rename_new": set(), "having_subquery_tables": set(), "parsed": False,
          "stmt_types": [], "same_alias_subqueries": set(), "case_subquery": False, "n_rename_pairs": 0,
-         "case_subquery_aliases": set(), "subquery_aliases": set(), "select_has_subquery": False, "same_text_subqueries": False, "nested_group_first_aliases": set(), "cte_paren_setop_names": set(), "where_has_subquery": False, "select_subquery_aliases": set()}
+         "case_subquery_aliases": set(), "subquery_aliases": set(), "select_has_subquery": False, "same_text_subqueries": False, "nested_group_first_aliases": set(), "cte_paren_setop_names": set(), "where_has_subquery": False, "select_subquery_aliases": set(), "fullname_schemas": set(), "select_subquery_fullname_schemas": set(), "repeated_subquery_item_aliases": set()}
     try:
         tree = Linter(config=FluffConfig(overrides={"dialect": d})).parse_string(sql).tree
     except Exception:
@@ -76,6 +76,26 @@ def features(sql, dialect):
     for wc in tree.recursive_crawl("where_clause"):
         if any(True for _ in wc.recursive_crawl("select_statement")):
             f["where_has_subquery"] = True
+    def first_of_full(seg):
+        out = set()
+        for cr in seg.recursive_crawl("column_reference"):
+            ids = [x for x in cr.segments if x.type in ("identifier", "naked_identifier", "quoted_identifier")]
+            if len(ids) >= 3:
+                out.add(_esc(ids[0].raw))
+        return out
+
+    item_aliases = []
+    for sce in tree.recursive_crawl("select_clause_element"):
+        if any(True for _ in sce.recursive_crawl("select_statement")):
+            a = sce.get_child("alias_expression")
+            ids = [x for x in a.segments if x.type in ("identifier", "naked_identifier", "quoted_identifier")] if a is not None else []
+            if ids:
+                item_aliases.append(_esc(ids[-1].raw))
+    f["repeated_subquery_item_aliases"] = {a for a in item_aliases if item_aliases.count(a) > 1}
+    f["fullname_schemas"] = first_of_full(tree)
+    for sce in tree.recursive_crawl("select_clause_element"):
+        for sub in sce.recursive_crawl("select_statement"):
+            f["select_subquery_fullname_schemas"] |= first_of_full(sub)
     for hv in tree.recursive_crawl("having_clause"):
         for sub in hv.recursive_crawl("select_statement"):
             f["having_subquery_tables"] |= tables_in(sub)
